@@ -267,6 +267,21 @@ def w5_spellings(c1: int, L: int) -> bool:
     return round_trip_ok(SPELLINGS5[P('sk')].format(chr(c1)), False, L)
 
 
+LAYOUT6 = ' \na'
+
+
+@lemma('W6.layout', 'C10', quick=by('c1', list(LAYOUT6), [{'k': 4}]), thorough=by('c1', list(LAYOUT6), [{'k': 4}, {'k': 5, 'timeout': 3000}]), timeout=900, per_path=120,
+       covers=['block_token.py:BlockCode.start', 'markdown_renderer.py:MarkdownRenderer.render_block_code', 'markdown_renderer.py:MarkdownRenderer.fragments_to_lines'],
+       note='documents of k = 4..5 characters over {space, newline, a} (indentation and blank-line layout only), L >= 1 an unbounded symbolic int: same meaning up to white space, second reflow is the identity')
+def w6_layout(c1: int, c2: int, c3: int, c4: int, c5: int, L: int) -> bool:
+    """
+    pre: fixed(c1, 'c1') and all_in(LAYOUT6, P('k'), c1, c2, c3, c4, c5) and L >= 1
+    post: _
+    """
+    from vfy.lemmas.c09 import round_trip_ok
+    return round_trip_ok(S(P('k'), c1, c2, c3, c4, c5), False, L)
+
+
 def witness_budget_zero():
     """(fixed) child budget 0 switched wrapping off: '- a b' at max_line_length=2 came back unwrapped"""
     from mistletoe import Document
